@@ -70,9 +70,39 @@ def reference(spec, exports):
         return [(m.get(n, n), v) for n, v in inner]
 
 
+def spec_datum(d, spec):
+    """the import set as the datum the user writes"""
+    k = spec[0]
+    if k == "lib":
+        return d.lst([d.sym("mylib"), d.sym("sub")])
+    inner = spec_datum(d, spec[1])
+    if k in ("only", "except"):
+        return d.lst([d.sym(k), inner] + [d.sym(n) for n in spec[2]])
+    if k == "prefix":
+        return d.lst([d.sym(k), inner, d.sym(spec[2])])
+    return d.lst([d.sym(k), inner] + [d.lst([d.sym(a), d.sym(b)]) for a, b in spec[2]])
+
+
+def parse_spec(w, spec):
+    """the ImportSet the crate's own parser builds for the import set (so that whatever normal form the parser establishes —
+    sorted identifier lists, maps — is what the evaluator is run on); None when the parser cannot be followed"""
+    from . import parsetables
+    f = w.fb.find("parser::parser::Parser::transform_import_set", required=False)
+    if f is None:
+        return None
+    try:
+        r = Machine(w.fb, max_visits=14, budget=2500).run(f, [spec_datum(parsetables.Datums(w.fb), spec)])
+    except (absint.Stuck, absint.Loop):
+        return None
+    if isinstance(r, Enum) and getattr(r, "name", None) == "Ok" and r.fields:
+        return r.fields[0]
+    return None
+
+
 def specs():
     base = ("lib",)
-    ops1 = [("only", base, ["a", "c"]), ("only", base, []), ("except", base, ["a"]), ("except", base, ["a", "b", "c"]), ("prefix", base, "p-"),
+    ops1 = [("only", base, ["a", "c"]), ("only", base, []), ("only", base, ["c", "a"]), ("except", base, ["a"]), ("except", base, ["c", "a"]),
+            ("except", base, ["a", "b", "c"]), ("prefix", base, "p-"), ("rename", base, [("c", "x"), ("a", "y")]),
             ("rename", base, [("a", "x")]), ("rename", base, [("a", "b"), ("b", "a")]), ("rename", base, [("a", "b"), ("b", "c"), ("c", "a")])]
     out = [base] + ops1
     for o1 in ops1:
@@ -100,7 +130,10 @@ def run_spec(w, spec):
             return UNKNOWN
         return NOT
     mc = Machine(w.fb, intercept=icpt, max_visits=12, budget=800)
-    expr = w.build(spec, lib)
+    expr = parse_spec(w, spec)
+    via_parser = expr is not None
+    if expr is None:
+        expr = w.build(spec, lib)
     try:
         res = mc.run(w.f, [selfv, expr])
     except (absint.Stuck, absint.Loop) as e:
@@ -117,7 +150,7 @@ def run_spec(w, spec):
         else:
             return {"result": res, "pairs": None}
     in_progress_left = len(selfv[w.fields.index("imported_library")].d) if isinstance(selfv[w.fields.index("imported_library")], Map) else None
-    return {"pairs": pairs, "want": reference(spec, exports), "loads": len(ev), "in_progress_left": in_progress_left}
+    return {"pairs": pairs, "want": reference(spec, exports), "loads": len(ev), "in_progress_left": in_progress_left, "via_parser": via_parser}
 
 
 def show(spec):
@@ -156,7 +189,7 @@ def rule_algebra(ctx, rules):
         got = sorted((n, id(v)) for n, v in d["pairs"])
         want = sorted((n, id(v)) for n, v in d["want"])
         names_ok = sorted(n for n, _ in d["pairs"]) == sorted(n for n, _ in d["want"])
-        ctx.inst(rule, "import-set/%s" % label, {"names": sorted(n for n, _ in d["pairs"])})
+        ctx.inst(rule, "import-set/%s" % label, {"names": sorted(n for n, _ in d["pairs"]), "parsed_by_the_crate": d.get("via_parser")})
         ctx.oblige(got == want)
         if not names_ok:
             ctx.report(rule, "import-set/%s" % label, "%s binds the names %s, the import-set algebra gives %s" % (
@@ -262,7 +295,7 @@ def rule_keywords(ctx, rule):
     d = parsetables.Datums(fb)
     S = lambda: d.lst([d.sym("mylib"), d.sym("sub")])
     cases = [
-        ("only", d.lst([d.sym("only"), S(), d.sym("a"), d.sym("c")]), "Only", ["a", "c"]),
+        ("only", d.lst([d.sym("only"), S(), d.sym("c"), d.sym("a")]), "Only", ["c", "a"]),
         ("except", d.lst([d.sym("except"), S(), d.sym("a")]), "Except", ["a"]),
         ("prefix", d.lst([d.sym("prefix"), S(), d.sym("p-")]), "Prefix", "p-"),
         ("rename", d.lst([d.sym("rename"), S(), d.lst([d.sym("a"), d.sym("x")]), d.lst([d.sym("b"), d.sym("y")])]), "Rename", [["a", "x"], ["b", "y"]]),
@@ -288,7 +321,10 @@ def rule_keywords(ctx, rule):
             subbody = sub.fields[0] if isinstance(sub, Enum) and sub.fields else None
             sub_ok = isinstance(subbody, Enum) and getattr(subbody, "name", None) == "Direct" and "mylib" in repr(subbody) and "sub" in repr(subbody)
             arg_plain = [list(x) if isinstance(x, list) else x for x in arg] if isinstance(arg, list) else arg
-            good = sub_ok and arg_plain == want_arg
+            # the order of the identifiers of only / except (and of the pairs of rename) carries no meaning: compare as multisets
+            same = arg_plain == want_arg or (isinstance(want_arg, list) and isinstance(arg_plain, list) and
+                                             sorted(map(repr, arg_plain)) == sorted(map(repr, want_arg)))
+            good = sub_ok and same
             detail = " with nested set %s and argument %r" % ("parsed from the second element" if sub_ok else repr(subbody)[:60], arg_plain)
         elif good:
             good = "mylib" in repr(body) and "sub" in repr(body)
